@@ -56,7 +56,7 @@ STATIC_REL = {("gp1", "p1", 1), ("gp2", "p2", 1)}
 def arrival_kinds(tier):
     av = ATTRVARS_Q if tier == "quick" else ATTRVARS_T
     kinds = [(ci, ai, p) for ci in range(len(COLVARS)) for ai in range(len(av)) for p in ("p1", "p2")]
-    return kinds + ["explicit", (0, 0, None), (1, 0, None)]        # the last two name no parent at all
+    return kinds + ["explicit", "explicit2", (0, 0, None), (1, 0, None)]        # explicit ids X_1 / X_2; the last two name no parent at all
 
 
 def bounds(tier):
@@ -79,12 +79,13 @@ def shards(tier):
 def make_arrival(kind, tier, gtf):
     av = ATTRVARS_Q if tier == "quick" else ATTRVARS_T
     idkey, pkey = ("exon_id", "transcript_id") if gtf else ("ID", "Parent")
-    if kind == "explicit":
+    if kind in ("explicit", "explicit2"):
         cols = dict(BASE)
-        attrs = {idkey: ["X_1"], "tag": ["a"], pkey: ["p1"]}
+        key = "X_1" if kind == "explicit" else "X_2"
+        attrs = {idkey: [key], "tag": ["a"], pkey: ["p1"]}
         if gtf:
             attrs["gene_id"] = [GRAND["p1"]]
-        return dict(key="X_1", cols=cols, attrs=attrs, parents=["p1"])
+        return dict(key=key, cols=cols, attrs=attrs, parents=["p1"])
     ci, ai, p = kind
     cols = dict(BASE)
     cols.update(COLVARS[ci])
@@ -187,6 +188,8 @@ def body(ch, ctx):
     maxlater = 2 if ctx.tier == "quick" else 3
     nlater = ch.choose("n_later", range(1, maxlater + 1))
     seq = [kinds[0], kinds[k0]] + [ch.choose("arrival%d" % i, kinds) for i in range(2, nlater + 1)]
+    if kinds[k0] == "explicit" and ch.flag("X_2_taken_as_well"):
+        seq.insert(2, "explicit2")          # X, X_1 and X_2 are all stored before the later arrivals: the next free key is X_3
     arrivals = [make_arrival(k, ctx.tier, gtf) for k in seq]
     split = None
     if imp == "gff_update":
